@@ -190,16 +190,19 @@ class Backend:
             from optuna.storages import GrpcStorageProxy
             from optuna.storages._grpc.server import make_server
 
-            for _ in range(20):
-                port = _free_port()
-                try:
-                    self.server = make_server(inner, "localhost", port, ThreadPoolExecutor(max_workers=1))
-                    self.server.start()
-                    break
-                except Exception:
-                    self.server = None
-            if self.server is None:
+            # the same wiring as optuna.storages._grpc.server.make_server, but the operating system picks the port
+            # atomically (port 0) and SO_REUSEPORT is off: two servers of parallel harness processes can never share a port
+            import grpc
+
+            from optuna.storages._grpc import servicer as grpc_servicer
+            from optuna.storages._grpc.auto_generated import api_pb2_grpc
+
+            self.server = grpc.server(ThreadPoolExecutor(max_workers=1), options=[("grpc.so_reuseport", 0)])
+            api_pb2_grpc.add_StorageServiceServicer_to_server(grpc_servicer.OptunaStorageProxyService(inner), self.server)
+            port = self.server.add_insecure_port("localhost:0")
+            if not port:
                 raise RuntimeError("could not start gRPC server")
+            self.server.start()
             self.storage = GrpcStorageProxy(host="localhost", port=port)
         else:
             self.storage = inner
